@@ -29,7 +29,12 @@ impl Filter for AbsFilter {
             .ok_or_else(|| invalid_input("Number expected"))?;
         input
             .to_integer()
-            .map(|i| Value::scalar(i.abs()))
+            .map(|i| {
+                // `i64::MIN` has no positive counterpart: continue in floating point
+                i.checked_abs()
+                    .map(Value::scalar)
+                    .unwrap_or_else(|| Value::scalar((i as f64).abs()))
+            })
             .or_else(|| input.to_float().map(|i| Value::scalar(i.abs())))
             .ok_or_else(|| invalid_input("Number expected"))
     }
@@ -170,7 +175,14 @@ impl Filter for PlusFilter {
 
         let result = input
             .to_integer()
-            .and_then(|i| operand.to_integer().map(|o| Value::scalar(i + o)))
+            .and_then(|i| {
+                operand.to_integer().map(|o| {
+                    // outside the 64-bit range: continue in floating point
+                    i.checked_add(o)
+                        .map(Value::scalar)
+                        .unwrap_or_else(|| Value::scalar(i as f64 + o as f64))
+                })
+            })
             .or_else(|| {
                 input
                     .to_float()
@@ -219,7 +231,14 @@ impl Filter for MinusFilter {
 
         let result = input
             .to_integer()
-            .and_then(|i| operand.to_integer().map(|o| Value::scalar(i - o)))
+            .and_then(|i| {
+                operand.to_integer().map(|o| {
+                    // outside the 64-bit range: continue in floating point
+                    i.checked_sub(o)
+                        .map(Value::scalar)
+                        .unwrap_or_else(|| Value::scalar(i as f64 - o as f64))
+                })
+            })
             .or_else(|| {
                 input
                     .to_float()
@@ -268,7 +287,14 @@ impl Filter for TimesFilter {
 
         let result = input
             .to_integer()
-            .and_then(|i| operand.to_integer().map(|o| Value::scalar(i * o)))
+            .and_then(|i| {
+                operand.to_integer().map(|o| {
+                    // outside the 64-bit range: continue in floating point
+                    i.checked_mul(o)
+                        .map(Value::scalar)
+                        .unwrap_or_else(|| Value::scalar(i as f64 * o as f64))
+                })
+            })
             .or_else(|| {
                 input
                     .to_float()
@@ -327,7 +353,14 @@ impl Filter for DividedByFilter {
 
         let result = input
             .to_integer()
-            .and_then(|i| operand.to_integer().map(|o| Value::scalar(i / o)))
+            .and_then(|i| {
+                operand.to_integer().map(|o| {
+                    // outside the 64-bit range: continue in floating point
+                    i.checked_div(o)
+                        .map(Value::scalar)
+                        .unwrap_or_else(|| Value::scalar(i as f64 / o as f64))
+                })
+            })
             .or_else(|| {
                 input
                     .to_float()
@@ -386,7 +419,8 @@ impl Filter for ModuloFilter {
 
         let result = input
             .to_integer()
-            .and_then(|i| operand.to_integer().map(|o| Value::scalar(i % o)))
+            // `i64::MIN % -1` is 0 mathematically but overflows `%`
+            .and_then(|i| operand.to_integer().map(|o| Value::scalar(i.wrapping_rem(o))))
             .or_else(|| {
                 input
                     .to_float()
